@@ -348,6 +348,8 @@ var effectCfgs = func() []effectCfg {
 		)
 	}
 	out = append(out, effectCfg{"SpecialSchemes(+gopher)", func() url.ParserOption { return url.WithSpecialSchemes(gopherSchemes) }, func(c *model.Config) { c.Special = gopherSchemes }})
+	appMap := map[string]string{"ftp": "21", "file": "", "http": "80", "https": "443", "ws": "80", "wss": "443", "app": "", "foo": "0"}
+	out = append(out, effectCfg{"SpecialSchemes(+app:'',+foo:0)", func() url.ParserOption { return url.WithSpecialSchemes(appMap) }, func(c *model.Config) { c.Special = appMap }})
 	out = append(out, effectCfg{"SpecialSchemes(+foo:99,-ws)", func() url.ParserOption {
 		return url.WithSpecialSchemes(map[string]string{"ftp": "21", "file": "", "http": "80", "https": "443", "wss": "443", "foo": "99"})
 	}, func(c *model.Config) {
@@ -472,7 +474,7 @@ func init() {
 		Level: "exploration",
 		Rule: "one sub-space per clause, each enumerated completely within its bounds: (1) New()/NewParser()/WhatWg == default parser on the C01 input spaces; (2) all 72 combinations of remove-user-info x remove-port x remove-fragment x sort{none,keys,parameter} x default-scheme{-,http,foo} against the documented composition " +
 			"(default parser result, standard setters with '', stable sort of the decoded pairs, scheme retry iff the reference model says the input fails for lack of a scheme); (3) neutrality of the six conservative-extension options alone and in all pairs on every input without the (over-approximated) trigger; " +
-			"(4) every replaced encode set (5 options x 3 sets) and two special-scheme maps against the reference model parameterised the same way; (5) collapse postcondition on a slash/dot/drive-letter alphabet; (6) skip-equals on all lists of <=3 pairs over a 5x5 menu. " +
+			"(4) every replaced encode set (5 options x 3 sets) and three special-scheme maps (added scheme with default port 70 / 99, with an empty default port, with default port 0, a removed scheme) against the reference model parameterised the same way; (5) collapse postcondition on a slash/dot/drive-letter alphabet; (6) skip-equals on all lists of <=3 pairs over a 5x5 menu. " +
 			"non-trivial = cases in which the option applies / the parse succeeds (largest single space)",
 		Assume:  []string{"reference model (validated against WPT on every run) for the missing-scheme verdict and the parameterised parse", "trigger predicates are over-approximations (inputs with a trigger are not used for the neutrality clause)", "experimental options without a specification (host callbacks, encoding override, skip-trailing-slash, allow-setting-path) are only covered by C02"},
 		Trusted: []string{"verif/model"},
@@ -617,7 +619,7 @@ func c16Body(c *fw.Ctx) {
 	}
 	// (4)
 	c.Space("effects-vs-parameterised-model")
-	effPrefixes := []string{"http://h/", "a:/", "a:", "http://h/?", "a://h/?", "ws://h/#", "a:#", "gopher:", "gopher://h:70/", "foo://h:99", "ws:", "FOO:\\\\h\\"}
+	effPrefixes := []string{"http://h/", "a:/", "a:", "http://h/?", "a://h/?", "ws://h/#", "a:#", "gopher:", "gopher://h:70/", "foo://h:99", "ws:", "FOO:\\\\h\\", "app://h:", "app:", "foo://h:", "app://h:0"}
 	for ei := range effectCfgs {
 		ec := &effectCfgs[ei]
 		for _, pre := range effPrefixes {
